@@ -703,6 +703,7 @@ TLAPS_MODULES = {
     "eq": ("MapProofEq.tla",),
     "scan": ("MapProofAlg.tla",),
     "disj": ("MapProofDisj.tla",),
+    "bulk": ("MapProofId.tla", "MapProofBulk.tla"),
 }
 
 
@@ -720,7 +721,8 @@ def tlaps_proof(group="map"):
     shutil.rmtree(d, ignore_errors=True)
     os.makedirs(d)
     out = []
-    shutil.copy(os.path.join(SPEC, "MapProofKV.tla"), d)       # (MapProofRetain extends it)
+    for dep in ("MapProofKV.tla", "MapProofId.tla"):       # (MapProofRetain / MapProofBulk extend them)
+        shutil.copy(os.path.join(SPEC, dep), d)
     for mod in TLAPS_MODULES[group]:
         shutil.copy(os.path.join(SPEC, mod), d)
         t0 = time.time()
@@ -831,6 +833,8 @@ def run_check(pid, tier, seed):
         summary["tlaps_inductive_invariant"] = tlaps_proof("disj")
     if pid == "C12":
         summary["tlaps_inductive_invariant"] = tlaps_proof()
+    if pid == "C16":
+        summary["tlaps_inductive_invariant"] = tlaps_proof("bulk")
     if pid == "C08":
         summary["tlaps_inductive_invariant"] = tlaps_proof("alg")
     if pid == "C14":
